@@ -183,6 +183,31 @@ theorem destination_lon_range_counterexample :
   simp only [e3] at h1
   norm_num at h1
 
+/-! ### DestinationPoint: distance (stretch goal) -/
+
+/-- Travelling `m ∈ [0, πR]` metres from a point of valid latitude along any bearing ends at
+    great-circle distance exactly `m` from the start. -/
+theorem destination_distance (lat lon m brg : ℝ) (hlat : -90 ≤ lat ∧ lat ≤ 90)
+    (hm : 0 ≤ m ∧ m ≤ π * R) :
+    Gen.distanceTo lat lon (Gen.destinationPoint lat lon m brg).1
+      (Gen.destinationPoint lat lon m brg).2 = m := by
+  rw [destinationPoint_eq]
+  simp only
+  rw [distanceTo_eq]
+  have key : Gen.haversine lat lon (destPhi lat m brg * deg)
+      ((rmod (destLam lat lon m brg + 3 * π) (2 * π) - π) * deg) = Gen.distanceToHaversine m := by
+    rw [haversine_eq, distanceToHaversine_eq]
+    obtain ⟨k, hk⟩ := rmod_eq_sub_int_mul (destLam lat lon m brg + 3 * π) (2 * π)
+    rw [hk, mul_deg_mul_rad, mul_deg_mul_rad]
+    have e2 : destLam lat lon m brg + 3 * π - 2 * π * (k : ℝ) - π - lon * rad
+        = ratan2 (sin (brg * rad) * sin (m / R) * cos (lat * rad))
+            (cos (m / R) - sin (lat * rad) * sin (destPhi lat m brg))
+          + ((1 - k : ℤ) : ℝ) * (2 * π) := by
+      simp only [destLam]; push_cast; ring
+    rw [e2, show m / (2 * R) = m / R / 2 by ring]
+    exact dest_haversine (lat * rad) (m / R) (brg * rad) (cos_lat_nonneg hlat) (1 - k)
+  rw [key, distanceFrom_to_id m hm]
+
 /-! ### DegsToSemi / SemiToDegs (int32 modelled as unbounded `Int`, truncation toward zero) -/
 
 theorem semi_roundtrip (s : ℤ) : Gen.degsToSemi (Gen.semiToDegs s : ℝ) = s := by
@@ -235,3 +260,4 @@ end Geo.C15
 #print axioms Geo.C15.destination_lon_range
 #print axioms Geo.C15.destination_lon_range_counterexample
 #print axioms Geo.C15.semi_roundtrip
+#print axioms Geo.C15.destination_distance
